@@ -30,7 +30,7 @@ RULE = ('operation sequences over {isalive, wait, kill(sig), terminate(False/Tru
         'every I/O operation raises and a canary pipe placed on the old descriptor number is untouched, I5 whenever '
         'child_fd != -1 it is the descriptor opened at spawn. non-trivial = sequence with >=2 operations on a disposition '
         'other than normal, or containing a close/terminate followed by another operation; distinct by (disposition, sequence)')
-ASSUMPTIONS = ['delayafterclose / delayafterterminate lowered to 20 ms (configuration attributes)',
+ASSUMPTIONS = ['delayafterclose / delayafterterminate lowered to 20 ms (configuration attributes); a violation is re-run twice with the default 0.1 s and reported only if it reproduces',
                'wait() is issued only when /proc shows the child exiting or the disposition guarantees it',
                '/proc/<pid>/stat start time identifies our child (no pid-reuse confusion)']
 REQUIRED = ['sequences', 'operations', 'invariant_I1', 'invariant_I2', 'invariant_I3', 'invariant_I4', 'invariant_I5',
@@ -239,8 +239,9 @@ def pty_sequence(case, acc):
     try:
         ctx.base_fds = nfds()
         ctx.child = pexpect.spawn(pup.argv[0], pup.argv[1:], timeout=5)
-        ctx.child.delayafterclose = ctx.child.delayafterterminate = 0.02
-        ctx.child.ptyproc.delayafterclose = ctx.child.ptyproc.delayafterterminate = 0.02
+        d = case.get('delays', 0.02)
+        ctx.child.delayafterclose = ctx.child.delayafterterminate = d
+        ctx.child.ptyproc.delayafterclose = ctx.child.ptyproc.delayafterterminate = d
         ctx.child.delaybeforesend = None
         ctx.pid = pup.wait_ready()
         st = proc_stat(ctx.pid)
@@ -471,6 +472,31 @@ def plan(tier, seed):
 
 
 def one(case, acc):
+    """The grace periods after each signal are lowered to 20 ms to make thousands of sequences affordable; on a
+    loaded machine a killed child may need longer than that to die.  A violation is therefore re-run twice,
+    serially, with pexpect's own default delays (0.1 s) and reported only if it reproduces."""
+    from ..core.acc import Acc
+    first = Acc()
+    _one(case, first)
+    if first.violations and case.get('kind') == 'pty' and 'delays' not in case:
+        mech = first.violations[0]['mechanism']
+        slow = dict(case, delays=0.1)
+        ok = True
+        for _ in range(2):
+            again = Acc()
+            _one(slow, again)
+            if not any(v['mechanism'] == mech for v in again.violations):
+                ok = False
+                break
+        if not ok:
+            first.violations = []
+            first.viol_counts = {}
+            first.count('flaky_unconfirmed')
+            first.seen('list:flaky_unconfirmed_mechanisms', mech)
+    acc.merge(first.dump())
+
+
+def _one(case, acc):
     acc.case()
     acc.count('sequences')
     if case.get('enum'):
